@@ -73,7 +73,15 @@ func (p *Peers) Collect() (*WebRTCPeer, error) {
 	}
 	// Track new valid Snowflake in internal collection and pass along.
 	p.activePeers.PushBack(connection)
-	p.snowflakeChan <- connection
+	// Closed peers leave activePeers but stay queued in snowflakeChan until
+	// popped, so the channel can be full here. Do not park with collectLock
+	// held once End has been called: End needs the lock.
+	select {
+	case p.snowflakeChan <- connection:
+	case <-p.melt:
+		connection.Close()
+		return nil, fmt.Errorf("Snowflakes have melted")
+	}
 	return connection, nil
 }
 
